@@ -88,7 +88,7 @@ def operands(ctx, kinds, modes):
             variants.append((('src', pm, v), shape, lay))
     rnd = []
     rng = random.Random(ctx.seed * 104729 + 5)
-    for pm, src, shape in H.random_operands(rng, 60 if ctx.quick else 300):
+    for pm, src, shape in H.random_operands(rng, 60 if ctx.quick else 500):
         if (pm, src) in {(b[0][1], b[0][2]) for b in base} | {(r[0][1], r[0][2]) for r in rnd}:
             continue
         try:
